@@ -10,7 +10,7 @@ EVALS = ["bids_where (fun c => negb (b_tie f_same c)) cases", "bids_where (fun c
 
 
 def run(run, args):
-    n = 24 if run.tier == "quick" else 300
+    n = (24 if run.tier == "quick" else 300) * run.scale
     brainlib.prepare(run)
     rc, out, err, dt = run_harness(["brain", "c09", run.seed, n], timeout=1200)
     if rc != 0:
